@@ -220,6 +220,16 @@ contract(
 HREQ = ["T_inv(self.struct)", "WF()"]
 HENS = ["T_inv(self.struct)", "WF()", "self.struct == old(self.struct)"]
 HMOD = ["self.struct.stack", "Element._children", "Element._parent", "fresh"]
+# the elements that never have content (HTML's void elements, with the legacy `param`): C16's round trip writes `<br>` back as
+# `<br>` only because the parser does not open a scope for them
+VOIDS = "('area', 'base', 'br', 'col', 'embed', 'hr', 'img', 'input', 'link', 'meta', 'param', 'source', 'track', 'wbr')"
+HEXTRA = {
+    # a void element opens no scope; every other start tag opens exactly one
+    "handle_starttag": [f"implies(name in {VOIDS}, self.struct.stack == old(self.struct.stack))",
+                        f"implies(name not in {VOIDS}, len(self.struct.stack) == len(old(self.struct.stack)) + 1"
+                        " and self.struct.stack[: len(old(self.struct.stack))] == old(self.struct.stack))"],
+    "handle_startendtag": ["self.struct.stack == old(self.struct.stack)"],
+}
 for h, extra in (
     ("handle_starttag", {"attr": "Attrs"}),
     ("handle_startendtag", {"attr": "Attrs"}),
@@ -229,7 +239,7 @@ for h, extra in (
     contract(
         f"{M}:HtmlToAst.{h}",
         requires=HREQ,
-        ensures=HENS + ["len(self.struct.stack) >= len(old(self.struct.stack))"],
+        ensures=HENS + ["len(self.struct.stack) >= len(old(self.struct.stack))"] + HEXTRA.get(h, []),
         raises={},  # no exception may escape a handler, for any string argument
         modifies=HMOD,
         types=extra,
